@@ -283,15 +283,24 @@ func check(args []string) int {
 			if err := os.WriteFile(path, b, 0o644); err != nil {
 				fmt.Fprintln(os.Stderr, "verif: cannot write replay:", err)
 			}
-			ok := true
-			for k := 0; k < 5; k++ {
+			// Five replays out of five must fail. Classes raised by the race detector are the exception: a report
+			// of the detector is sound (it has seen both accesses and no ordering between them), but whether it
+			// sees them again on the same schedule is best effort (bounded shadow history: the same replay of a
+			// seeded race was observed to report on some runs and not on others), so two failing replays out of
+			// five of one recorded case are enough for these classes.
+			need, hits := 5, 0
+			if strings.Contains(key, ":race:") {
+				need = 2
+			}
+			for k := 0; k < 5 && hits < need && hits+(5-k) >= need; k++ {
 				out, err := runCmd(bins[f.p.Race], 10*time.Minute, nil, "replay", f.p.ID, path)
-				if err == nil || !bytes.Contains(out, []byte("REPRODUCED")) {
-					ok = false
+				if err != nil && bytes.Contains(out, []byte("REPRODUCED")) {
+					hits++
+				} else {
 					lastOut = out
-					break
 				}
 			}
+			ok := hits >= need
 			if !ok {
 				_ = os.Remove(path)
 				continue
